@@ -600,7 +600,7 @@ DOC_DEFAULTS = {
     ("network", "reactions"): [], ("network", "units"): "inherit",
     ("grid", "w"): 1, ("grid", "h"): 1, ("grid", "d"): 1, ("grid", "cell_env"): 0, ("grid", "cell_volume"): 1,
     ("grid", "units"): "inherit",
-    ("system", "state"): None, ("system", "chemostats"): None, ("system", "units"): "inherit",
+    ("system", "state"): None, ("system", "chemostats"): None, ("system", "units"): "inherit", ("system", "space"): None,
     ("script", "time_step"): 1e-3, ("script", "t_max"): "default", ("script", "sampling_policy"): "on_t_sample",
     ("script", "sampling_interval"): 1, ("script", "init_state_processing"): "auto", ("script", "units"): "default",
     ("unitsSystem", "space"): "µm", ("unitsSystem", "time"): "s", ("unitsSystem", "quantity"): "molecule",
@@ -890,8 +890,6 @@ def run(ctx):
         "oracle mode `alias` + correspondence edits `alias` / `two-synonyms`",
         "Printable (the printed unit text is read back with the same dimension, SI scale and text) is a hypothesis of the quantity "
         "theorems: it is the print/parse law of the unit grammar (C18); discharged by evaluation for example units (printable_examples)",
-        "the model reproduces the reader's behaviour for an omitted \"space\" (constructor default RDGridSpace() in default units): when "
-        "proposed_fixes/c12_system_space_default.diff is applied to the repository, Model/Dict.lean `systemFromDict` must follow",
     ]
     ctx.extra["reader_alias_groups"] = {k: len(v) for k, v in aliases.items()}
     counts = {"network": ctx.n(40, 1500), "grid": ctx.n(30, 800), "graph": ctx.n(30, 800), "system": ctx.n(40, 1500),
